@@ -1,12 +1,16 @@
 package checks
 
 import (
+	"bytes"
 	"fmt"
+	"os"
 	"strings"
+	"syscall"
 	"time"
 
 	bolt "go.etcd.io/bbolt"
 	"go.etcd.io/bbolt/zverif/apix"
+	"go.etcd.io/bbolt/zverif/evid"
 	"go.etcd.io/bbolt/zverif/hx"
 	"go.etcd.io/bbolt/zverif/mc"
 	"go.etcd.io/bbolt/zverif/refmodel"
@@ -148,7 +152,73 @@ func C14(tier string) int {
 		Assumptions: []string{"the copy reads the file through the descriptor; pages of the reader's version are protected by the reader registration (C02/C06)"},
 		Quick:       60 * time.Second, Thorough: 20 * time.Minute,
 		Extra: func(tier string, cov map[string]interface{}) []string {
-			return subHX("C14", []string{"c14-life"}, tier, cov, 60*time.Second, 15*time.Minute)
+			v := subHX("C14", []string{"c14-life"}, tier, cov, 60*time.Second, 15*time.Minute)
+			return append(v, replacedPath(tier, cov)...)
 		},
 	}, tier)
+}
+
+// replacedPath: a backup taken with a non-zero Tx.WriteFlag re-opens the database by path; when that path has
+// meanwhile been replaced by another file (rename), the copy must still be the reader's own snapshot.
+func replacedPath(tier string, cov map[string]interface{}) []string {
+	var viols []string
+	n := 0
+	for _, sd := range []string{"twolevel", "nested", "overflow"} {
+		for _, flag := range []int{syscall.O_SYNC, syscall.O_NOATIME} {
+			for _, replace := range []bool{false, true} {
+				sc := &hx.Scope{Seed: Seeds[sd], Cfg: apix.Cfg{PageSize: 1024, Freelist: "array"}}
+				data, model, err := hx.BuildSeedFull(sc)
+				if err != nil {
+					continue
+				}
+				other := &hx.Scope{Seed: Seeds["freeruns"], Cfg: apix.Cfg{PageSize: 1024, Freelist: "array"}}
+				odata, _, err := hx.BuildSeedFull(other)
+				if err != nil {
+					continue
+				}
+				path := apix.TempPath(hx.WorkDir())
+				_ = os.WriteFile(path, data, 0600)
+				msg := func() string {
+					db, err := bolt.Open(path, 0600, &bolt.Options{})
+					if err != nil {
+						return err.Error()
+					}
+					defer db.Close()
+					tx, err := db.Begin(false)
+					if err != nil {
+						return err.Error()
+					}
+					defer func() { _ = tx.Rollback() }()
+					if replace {
+						tmp := path + ".new"
+						_ = os.WriteFile(tmp, odata, 0600)
+						if err := os.Rename(tmp, path); err != nil {
+							return err.Error()
+						}
+					}
+					tx.WriteFlag = flag
+					var buf bytes.Buffer
+					nw, err := tx.WriteTo(&buf)
+					if err != nil {
+						return "WriteTo with WriteFlag: " + err.Error()
+					}
+					if nw != tx.Size() || int64(buf.Len()) != tx.Size() {
+						return fmt.Sprintf("WriteTo returned %d, produced %d bytes, Size() %d", nw, buf.Len(), tx.Size())
+					}
+					return apix.CheckBackup(buf.Bytes(), 1024, model, hx.WorkDir())
+				}()
+				os.Remove(path)
+				n++
+				if msg != "" {
+					p := evid.Replay("C14", map[string]interface{}{"property": "C14", "engine": "replaced-path", "seed": sd, "write_flag": flag, "path_replaced": replace, "msg": msg})
+					viols = append(viols, p)
+					evid.Violation("C14", p)
+					fmt.Printf("  backup with WriteFlag %#x, database path replaced by rename: %v, seed %s: %s\n", flag, replace, sd, msg)
+				}
+			}
+		}
+	}
+	cov["write_flag_backups"] = n
+	hx.CleanWorkDir()
+	return viols
 }
